@@ -162,28 +162,68 @@ Fixpoint list_eqb {A} (eqb : A -> A -> bool) (l1 l2 : list A) : bool :=
   | _, _ => false
   end.
 
-(* One wire-level exchange: the credentials file the real store was loaded from (None = no store
-   configured), the credentials presented, the endpoint and request shape, and what the real
-   service was observed to do (mock-store calls in order; wire items in order). *)
-Record case := {
-  c_file : option (list cred);
-  c_user : string; c_pass : string;
-  c_endpoint : string;
-  c_nil : bool; c_voter : bool; c_method_ok : bool;
-  c_calls : list string;
-  c_out : list out
+(* ---- requests, connections ---- *)
+
+(* one request as it arrives: credentials presented, endpoint, request shape *)
+Record request := {
+  q_user : string; q_pass : string;
+  q_endpoint : string;
+  q_nil : bool; q_voter : bool; q_method_ok : bool
 }.
 
-Definition model_run (c : case) : option hstate :=
-  match term_of (c_endpoint c) with
+Definition run_request (st : option cstore) (q : request) : option hstate :=
+  match term_of (q_endpoint q) with
   | None => None
-  | Some h => Some (run (holds (authz (option_map load (c_file c)) (c_user c) (c_pass c)) (c_voter c))
-                        (c_nil c) (c_method_ok c) h)
+  | Some h => Some (run (holds (authz st (q_user q) (q_pass q)) (q_voter q)) (q_nil q) (q_method_ok q) h)
+  end.
+
+(* One connection (the for-loop of cluster.Service.handleConn; a keep-alive HTTP connection):
+   the requests are served one after the other; the only thing carried from one to the next is
+   what has been called and written so far.  Nothing a request did or presented is consulted
+   when the next one is judged. *)
+Fixpoint conn_loop (st : option cstore) (qs : list request) (calls : list string) (outs : list out)
+  : option (list string * list out) :=
+  match qs with
+  | [] => Some (calls, outs)
+  | q :: r => match run_request st q with
+              | None => None
+              | Some h => conn_loop st r (calls ++ s_calls h) (outs ++ s_out h)
+              end
+  end.
+
+(* ---- correspondence ---- *)
+
+(* One request of a connection and what the real service was observed to do for it
+   (mock-store calls in order; wire items in order). *)
+Record step := {
+  p_req : request;
+  p_calls : list string;
+  p_out : list out
+}.
+
+(* One connection: the credentials file the real store was loaded from (None = no store
+   configured) and the requests sent over it, in order, each with its own observation. *)
+Record case := {
+  c_file : option (list cred);
+  c_steps : list step
+}.
+
+Definition check_step (st : option cstore) (p : step) : bool :=
+  match run_request st (p_req p) with
+  | None => false          (* an endpoint the model has no term for *)
+  | Some r => negb (s_crash r) && list_eqb String.eqb (s_calls r) (p_calls p)
+              && list_eqb out_eqb (s_out r) (p_out p)
   end.
 
 Definition check_case (c : case) : bool :=
-  match model_run c with
-  | None => false          (* an endpoint the model has no term for *)
-  | Some r => negb (s_crash r) && list_eqb String.eqb (s_calls r) (c_calls c)
-              && list_eqb out_eqb (s_out r) (c_out c)
+  let st := option_map load (c_file c) in
+  match c_steps c with
+  | [] => false
+  | ps => forallb (check_step st) ps
+          (* and the connection as a whole did what the per-request runs add up to *)
+          && match conn_loop st (map p_req ps) [] [] with
+             | None => false
+             | Some (cs, os) => list_eqb String.eqb cs (List.concat (map p_calls ps))
+                                && list_eqb out_eqb os (List.concat (map p_out ps))
+             end
   end.
